@@ -419,6 +419,41 @@ def mk_comp(d, it, items, conds=()):
             return v
 
         return mk_comp(d, inner_iter, tuple(sub(i) for i in items), tuple(sub(c) for c in conds))
+    # ... and over a comprehension that contributes several (possibly conditional) items per element: each of them is
+    # mapped (a generator of tuples consumed by `[f(a, b) for a, b in gen]`)
+    if it[0] == "comp" and not it[4] and len(it[3]) >= 1 and all(i[0] not in ("spread", "kv", "kadd") for i in it[3]) and not has(items, "idx") and not has(conds, "idx") and all(i[0] not in ("spread", "kv", "kadd") for i in items):
+        def sub_in(v, repl):
+            if isinstance(v, tuple) and v:
+                if v[0] == "bv" and v[1] == d:
+                    out = repl
+                    for i in v[2:]:
+                        out = mk_sub(out, C(i))
+                    return out
+                if v[0] in ("comp", "fold") and v[1] == d:
+                    return v
+                new = tuple(sub_in(x, repl) for x in v)
+                return renorm(new) if new != v else v
+            return v
+
+        new_items = []
+        for inner in it[3]:
+            cond_i = C(True)
+            val = inner
+            while val[0] == "when":
+                cond_i = mk_and(cond_i, val[1])
+                val = val[2]
+            val_r = rename_binder(val, it[1], d)
+            cond_r = rename_binder(cond_i, it[1], d)
+            for oi in items:
+                oc = cond_r
+                while oi[0] == "when":
+                    oc = mk_and(oc, sub_in(oi[1], val_r))
+                    oi = oi[2]
+                for c_ in conds:
+                    oc = mk_and(oc, sub_in(c_, val_r))
+                o = sub_in(oi, val_r)
+                new_items.append(o if oc == C(True) else ("when", oc, o))
+        return mk_comp(d, it[2], tuple(new_items), ())
     if len(items) == 1 and items[0][0] == "when":
         allc = items[0][1]
         for c_ in conds:
